@@ -814,3 +814,48 @@ def c14(run, replay):
     for s in scen[:3]:
         run.sample(s)
     run.sample([e for e in trace if e.get("ev") in ("h:wl.enter", "WireFrame")][:10])
+
+
+# --------------------------------------------------------------------------------------------- C15
+@check("C15")
+def c15(run, replay):
+    run.assumptions += [
+        "end causes {graceful close frame, FIN, RST, server-side context cancel} x handler mixes drawn from {unary with id, notification, streaming, "
+        "1-4 MB response, reverse-calling} x reaction time after cancellation {0, 20 ms} x {peer reading, peer stalled (TCP back-pressure)} x "
+        "{a frame in flight to the main loop or not}",
+        "goroutines are counted from the goroutine profile by the pprof label (jrpc-mode=wsserver) the library attaches to a server connection and that "
+        "every goroutine it spawns inherits; counted after all harness handlers have returned, polled for up to 3 s",
+        "every handler waits for its context to be cancelled and reports if that never happens (2 s)",
+    ]
+    thorough = run.tier == "thorough"
+    wd = run.dir("work")
+    rnd = random.Random(run.seed)
+    run.model_check(wd, "ServerConn.tla", "ServerConn.cfg", timeout=900)
+    for cfg in ("ServerConn_nolazy.cfg", "ServerConn_noreader.cfg"):
+        r = run.tlc(wd, "ServerConn.tla", cfg, timeout=600, tag="model_runs")
+        if r["violated"] != "NothingRetained":
+            raise vp.ToolFailure("self-test: %s should violate NothingRetained, got %s" % (cfg, r["violated"]))
+    kinds = ["unary", "notify", "stream", "big", "reverse"]
+    scen = []
+    for cause in ("graceful", "fin", "rst", "srvcancel"):
+        mixes = [kinds, ["unary"], ["notify"], ["stream"], ["big"], ["reverse"], ["unary", "big"], ["stream", "stream", "unary"]]
+        for mix in (mixes if thorough else [kinds] + rnd.sample(mixes[1:], 3)):
+            scen.append({"sc": "c15.end", "args": {"cause": cause, "mix": mix, "reactms": rnd.choice([0, 20]), "reverse": True,
+                                                   "inflight": rnd.random() < 0.5, "noping": rnd.random() < 0.5}})
+        scen.append({"sc": "c15.end", "args": {"cause": cause, "mix": ["unary", "big"], "reactms": 0, "bigsize": 4000000, "stalled": True, "reverse": True,
+                                               "inflight": True}})
+    for cause in ("srvcancel", "graceful", "fin"):
+        # TLC witnesses of ServerConn_noreader.cfg / the blocked-writer shape, forced with a gate / TCP back-pressure
+        if cause == "srvcancel":     # (with the reader parked the server can only learn of the end through its own context)
+            scen.append({"sc": "c15.end", "args": {"cause": cause, "mix": ["unary"], "gatereader": True, "reverse": True}})
+            scen.append({"sc": "c15.end", "args": {"cause": cause, "mix": ["stream", "notify"], "gatereader": True, "reverse": True}})
+        scen.append({"sc": "c15.end", "args": {"cause": cause, "mix": ["unary"], "bigblocked": True, "reverse": True}})
+    perturb(rnd, [s for s in scen if not s["args"].get("gatereader")], ["rd.msg.pre", "rd.next.pre", "main.incoming", "main.ctxdone", "closeinflight.pre", "closechans.pre", "exec.pop", "lazy.acquire.pre",
+                        "h.resp.pre", "fwd.exit", "fwd.val", "handling.add", "call.spawn", "ws.done"], 0.5)
+    trace, viol = run_ws_scenarios(run, wd, scen, "c15", timeout=3000)
+    report_ws(run, trace, viol, "C15", scen, "connection-end")
+    run.cov["distinct_nontrivial"] = len(set(json.dumps(s, sort_keys=True) for s in scen))
+    run.cov["rule"] = "cause x handler mix x reaction time x stalled peer x in-flight frame (+ seeded hook delays); distinct = distinct descriptions"
+    for s in scen[:3]:
+        run.sample(s)
+    run.sample([e for e in trace if e.get("ev") in ("ConnEnded", "HandlerCtxDone", "ConnGoroutines", "CtxMissing")][:12])
